@@ -118,6 +118,12 @@ def replay_doc(ctx, doc, letters):
                 ctx.case(dict(fn="find_neighbor_pairs", seqs=ref, hamming=ham, alphabet=alpha, n=len(want_pairs)), nontrivial=len(want_pairs) > 0)
                 if sorted(tuple(sorted(p)) for p in got_pairs) != want_pairs:
                     viol(f"find_neighbor_pairs/{suffix}/differs", f"find_neighbor_pairs({ref}, {suffix}) = {got_pairs} want {want_pairs}"[:500])
+                # repeated sequences in the list (in every order): each unordered pair of DISTINCT sequences is still listed once
+                for dup in (ref + ref, sorted(ref + ref), ref[::-1] + ref, [ref[0]] * 3 + ref[1:] if ref else []):
+                    got_d = D.find_neighbor_pairs(dup, neighborhood=nb)
+                    if sorted(tuple(sorted(p)) for p in got_d) != want_pairs:
+                        viol(f"find_neighbor_pairs/{suffix}/differs_with_repeated_sequences", f"find_neighbor_pairs({dup}, {suffix}) = {got_d} want {want_pairs}"[:500])
+                        break
                 as_set = set(ref)
                 again1 = D.find_neighbor_pairs(as_set, neighborhood=nb)
                 again2 = D.find_neighbor_pairs(as_set, neighborhood=nb)
